@@ -83,6 +83,31 @@ Theorem C13_full_pool_job_is_whole : forall (c : cloud) (cores mpc : Z) (r : res
 Proof. intros. rewrite pool_job_whole. reflexivity. Qed.
 Print Assumptions C13_full_pool_job_is_whole.
 
+(** No under-billing.  For ANY worker size (power of two or not: job-private machine types have 12, 20, 24, 48, 72, 96 ...
+    cores), ANY job and every resource of the worker: the job holds [wf] 1024ths of the worker, where [wf] is its exact share
+    of the cores 1024 * cpu / (cores * 1000) rounded DOWN to a whole number (never more than the share, never a whole 1024th
+    less), and is billed the disk's GiB x wf, wf of the vm / ip fee, count x wf of the accelerators; exactly its millicores of
+    compute and fees; exactly its MiB of memory. *)
+Theorem C13_job_share_floor : forall (c : cloud) (cores : Z) (r : resource) (k : rkind) (j : job),
+  0 < cores -> kind_of c r = Some k -> worker_resource k = true ->
+  exists wf, wf * (cores * 1000) <= 1024 * j_cpu j < (wf + 1) * (cores * 1000) /\
+             billed_for c cores r j = Billed (share_amount k wf j).
+Proof. exact gen_job_share_floor. Qed.
+Print Assumptions C13_job_share_floor.
+
+(** Nothing is billed to nobody on a full pool worker: packable requests (memory derived from the cores, a whole number of
+    MiB as quantified_resources asserts and C13_job_memory_tables shows for the real tables) that add up to ALL the cores of a
+    power-of-two worker (<= 256 cores) are billed, together, exactly the whole worker, for every resource of the worker. *)
+Theorem C13_pool_exact_packing : forall (c : cloud) (cores mpc : Z) (r : resource) (reqs : list (Z * Z)),
+  is_power_two cores = true -> cores <= 256 -> 0 < mpc -> worker_res c r ->
+  (forall ce, In ce reqs -> packable (fst ce)) ->
+  (forall ce, In ce reqs -> job_memory (mpc * mib) (fst ce) mod mib = 0) ->
+  zsum fst reqs = cores * 1000 ->
+  zsum (fun ce => billed (billed_for c cores r (pool_job (mpc * mib) ce))) reqs
+  = billed (billed_for c cores r (whole cores (mpc * mib * cores))).
+Proof. exact gen_pool_exact_packing. Qed.
+Print Assumptions C13_pool_exact_packing.
+
 (** The only resource that is not part of the worker — the job's own external disk — is billed by the job's request
     alone (independent of worker, cores, memory, packing) and not at all when the job has no external disk. *)
 Theorem C13_external_disk_per_job : forall (c : cloud) (r : resource) (k : rkind) (cores cores' : Z) (j j' : job),
